@@ -1113,6 +1113,12 @@ func isShrink(info *types.Info, cf *cfgx.Func, as *ast.AssignStmt) bool {
 				return true
 			}
 		}
+		// X = X[:len(rest)] with rest := X[k:], k >= 1
+		if lo, isLen := lengthExpr(info, cf.Resolve(sl.High)); isLen {
+			if tail, ok := ast.Unparen(cf.Resolve(lo)).(*ast.SliceExpr); ok && tail.High == nil && tail.Low != nil && pos(tail.Low) && cfgx.SameExpr(info, tail.X, as.Lhs[0]) {
+				return true
+			}
+		}
 	}
 	return false
 }
